@@ -5,6 +5,26 @@
 open C05_model
 open C05_io
 
+(* byte strings of several hundred KB: table-driven conversions (same results as kvio's) *)
+let byte_tab : n array = Array.init 256 n_of_int
+let hexdig = "0123456789abcdef"
+let bytes_of_hex (s : string) : n list =
+  if s = "." || s = "-" then [] else begin
+    let l = ref [] in
+    for i = String.length s / 2 - 1 downto 0 do
+      l := byte_tab.(hexval s.[2*i] * 16 + hexval s.[2*i+1]) :: !l
+    done; !l
+  end
+let hex_of_bytes (l : n list) : string =
+  if l = [] then "." else begin
+    let buf = Buffer.create 4096 in
+    List.iter (fun b -> let v = int_of_n b in
+                Buffer.add_char buf hexdig.[(v lsr 4) land 15]; Buffer.add_char buf hexdig.[v land 15]) l;
+    Buffer.contents buf
+  end
+let optbytes_of_hex (s : string) : n list option = if s = "-" then None else Some (bytes_of_hex s)
+let hex_of_optbytes = function None -> "-" | Some l -> hex_of_bytes l
+
 (* ---- the compression oracle shipped with each case: comp(codec, plain) = compressed *)
 let oracle : (int * n list * n list) list ref = ref []
 let missing = ref false
